@@ -227,7 +227,7 @@ def render(cfg: dict, roots: list[Root], name: str = "disk.qcow2") -> Image:
             data_pos[(ri, u)] = p
             cpos = p + cs
             continue
-        f.write(cpos, blob)
+        f.write_blob(cpos, blob)
         comp_desc[(ri, u)] = COMPRESSED | (nsec << x) | cpos
         cpos += len(blob)
     if comp_items and not cfg.get("tight_eof"):
